@@ -67,11 +67,14 @@ vars == <<n, t, phase, obs>>
 \*   "share"  arg = rank j # pos  the partial filed under pos was made with share j's key; arg = 0: with a fresh key
 \*   "index"  arg = rank not in S the partial made by pos is filed under the id of rank arg (n+1: an id of no share)
 \*   "msg"                        the partial of pos was made over a different message
+\*   "junk"   arg = 0 | 1         the partial of pos is 96 bytes that are no signature (0: not decodable, 1: one byte of the
+\*                                honest signature flipped): aggregation fails or yields something that does not verify
 NoSub == [kind |-> "none", pos |-> 0, arg |-> 0]
 Subs(S) == {NoSub}
            \cup UNION {{[kind |-> "share", pos |-> i, arg |-> j] : j \in (0..n) \ {i}} : i \in S}
            \cup {[kind |-> "index", pos |-> i, arg |-> j] : i \in S, j \in (1..(n + 1)) \ S}
            \cup {[kind |-> "msg", pos |-> i, arg |-> 0] : i \in S}
+           \cup {[kind |-> "junk", pos |-> i, arg |-> a] : i \in S, a \in {0, 1}}
 Subsets == {S \in SUBSET (1..n) : Cardinality(S) >= t}
 
 Init == n = 0 /\ t = 0 /\ phase = "new" /\ obs = [kind |-> "none"]
@@ -85,7 +88,11 @@ Recover(S) == /\ phase = "split" /\ S \in Subsets
               /\ phase' = "rec" /\ UNCHANGED <<n, t>>
               /\ obs' = [kind |-> "recover", S |-> S, secretEq |-> TRUE, pubEq |-> TRUE]
 \* ThresholdAggregate of the partials of S (one of them possibly substituted) against the undivided key
-Combine(S, sub) == /\ phase \in {"split", "rec"} /\ S \in Subsets /\ sub \in Subs(S)
+\* (also right after a combination with a substituted partial -- one that failed or did not verify: the next one must be
+\*  judged on its own, whatever the earlier call left behind in the implementation)
+Combine(S, sub) == /\ \/ phase \in {"split", "rec"}
+                      \/ phase = "done" /\ obs.kind = "combine" /\ obs.sub.kind # "none"
+                   /\ S \in Subsets /\ sub \in Subs(S)
                    /\ phase' = "done" /\ UNCHANGED <<n, t>>
                    /\ obs' = [kind |-> "combine", S |-> S, sub |-> sub,
                               altered |-> sub.kind # "none",      \* the substituted partial differs from the honest one
@@ -112,6 +119,7 @@ Hs == 1..(P - 1)
 \* the point presented for rank i of S under substitution sub; w = value of a fresh key, h2 = the other message
 Point(c, i, sub, h, h2, w) ==
   IF sub.kind = "none" \/ sub.pos # i THEN <<i, Mod(F(c, i) * h)>>
+  ELSE IF sub.kind = "junk" THEN <<i, Mod(w * h)>>                \* no signature at all: algebraically a value off the curve
   ELSE IF sub.kind = "share" THEN <<i, Mod((IF sub.arg = 0 THEN w ELSE F(c, sub.arg)) * h)>>
   ELSE IF sub.kind = "index" THEN <<sub.arg, Mod(F(c, i) * h)>>
   ELSE <<i, Mod(F(c, i) * h2)>>
@@ -133,7 +141,7 @@ CombineThm(S, sub) ==
       Key(x) == IF KeyMode = "id" THEN x ELSE RankIn(X, x)
       K == {Key(x) : x \in X}
       lam == [x \in X |-> Lambda(K, Key(x))]
-      fresh == sub.kind = "share" /\ sub.arg = 0
+      fresh == (sub.kind = "share" /\ sub.arg = 0) \/ sub.kind = "junk"
       H2s == IF sub.kind = "msg" THEN 2..(P - 1) ELSE {2}
   IN
   /\ \A c \in Polys : \A h2 \in H2s : \A w \in (IF fresh THEN Zp ELSE {0}) :
